@@ -44,6 +44,8 @@ pub struct Scenario {
     pub vols: Vec<VolCtx>,
     /// optional extra filter on enabled operations
     pub filter: Option<Box<dyn Fn(&World, &Op) -> bool + Sync + Send>>,
+    /// scenario parameters for oracles that need to build a twin scenario
+    pub tag: Option<Arc<dyn std::any::Any + Send + Sync>>,
 }
 
 pub fn vol_ctxs(base: &BaseImage) -> Vec<VolCtx> {
@@ -84,6 +86,7 @@ impl Scenario {
             depth,
             vols,
             filter: None,
+            tag: None,
         }
     }
     pub fn vol(&self, slot: usize) -> &VolCtx {
